@@ -6,6 +6,7 @@ import Proofs.InterpEnum
 import Proofs.InterpReturn
 import Proofs.CallShape
 import Proofs.CallShapeMore
+import Proofs.CallShapeTotal
 
 /-!
   C15 — Callable model elements behave as their OAL bodies specify.
@@ -838,5 +839,180 @@ example : valOfR (readVia 2 DerivedAttributeWalker_accept_FieldAccessNode "twice
     -- the base class's handler instead (no register test): `self.twice` runs the derived attribute again: 2 * 3
     valOfR (readVia 8 accept_FieldAccessNode "twice" cfgD) = some (.int 6) := by
   decide +kernel
+
+end PyxProps.C15
+
+/-! ==========================================================================================================
+  SOURCE TIE OF THE CALL PATH, ROUND 3 (builder 10) — appended section (helper lemmas: Proofs/CallShapeTotal.lean)
+  Inventory of Gen/CallShape.lean before this round: every def was tied for all inputs by a theorem above EXCEPT (a) the
+  not-found / fall-back side of accept_ImplicitInvocationNode and accept_BridgeInvocationNode (only the found cases and one
+  fall-back were equations), (b) accept_EnumOrNamedConstantNode when the enumeration does not exist, (c) accept_ClassInvocationNode
+  when the class does not exist, (d) the UNTYPED dictionary of Domain.add_symbol / find_symbol (only sampled by `decide`).  This
+  section closes (a)–(d) against `srcDom C` (the domain as mk_component fills it).  Doing (a) showed `Spec` and the source
+  DISAGREE on `NS::f()` / `bridge NS::f()` when NS names a symbol found BEFORE the class (an external entity without a bridge `f`;
+  for the bridge form also a constant / enumeration / function NS) and a class NS has a class-based operation `f`: the theorems
+  are therefore named `…_partial`, state the exact excluded case as `hsep`, and the witnesses below exhibit it.
+  ========================================================================================================== -/
+namespace PyxProps.C15
+open Pyx.Interp Pyx.CShape Pyx.Gen.CallShape
+open Pyx.IShape (noMsg)
+
+/-- `NS::name(args)` (accept_ImplicitInvocationNode) for EVERY model, found or not: parameters first; `find_symbol(NS, ['external
+    entity', 'class'])` — the external entity NS wins over the class NS, the class over the untyped dictionary (a constant /
+    enumeration / function NS: no such attribute, or not callable); `getattr`; the call (an instance-based operation fetched from
+    the class lacks its instance).  `hwf`: class-based operations belong to declared classes.  `hsep`: EXCLUDES the disagreement
+    (`implicit_call_disagreement_witness`) — NS is an external entity without a bridge `name` and the class NS has a class-based
+    operation `name`.  Up to the error text. -/
+theorem implicit_call_as_in_source_partial (C : Ctx) (rec : Oracle) (ns name : String) (args : List (String × Expr)) (c : Cfg)
+    (hwf : (findClass C ns).isSome = false → findCallable C (fun f => f.kind = .classOp ns ∧ f.name = name) = none)
+    (hsep : hasBridges C ns = true → findCallable C (fun f => f.kind = .bridge ns ∧ f.name = name) = none →
+      findCallable C (fun f => f.kind = .classOp ns ∧ f.name = name) = none) :
+    noMsg (evalStep C rec (.call (.implicit ns) name args) c) =
+      noMsg (handlerE C gen (srcDom C) rec (invNode C gen (srcDom C) rec [("namespace", ns), ("action_name", name)] none args)
+        accept_ImplicitInvocationNode c) :=
+  implicit_call_total C rec ns name args c hwf hsep
+
+/-- `bridge NS::name(args)` (accept_BridgeInvocationNode) for EVERY model, found or not: `find_symbol(NS, 'external entity')`
+    falls back to the UNTYPED dictionary first and to find_class last.  `hsep`: EXCLUDES the disagreement
+    (`bridge_call_disagreement_witness`) — NS names something in the untyped dictionary that has no bridge `name` while the class
+    NS has a class-based operation `name`.  Up to the error text. -/
+theorem bridge_call_as_in_source_partial (C : Ctx) (rec : Oracle) (ns name : String) (args : List (String × Expr)) (c : Cfg)
+    (hwf : (findClass C ns).isSome = false → findCallable C (fun f => f.kind = .classOp ns ∧ f.name = name) = none)
+    (hsep : untypedOf C ns ≠ none → findCallable C (fun f => f.kind = .bridge ns ∧ f.name = name) = none →
+      findCallable C (fun f => f.kind = .classOp ns ∧ f.name = name) = none) :
+    noMsg (evalStep C rec (.call (.bridge ns) name args) c) =
+      noMsg (handlerE C gen (srcDom C) rec (invNode C gen (srcDom C) rec [("namespace", ns), ("action_name", name)] none args)
+        accept_BridgeInvocationNode c) :=
+  bridge_call_total C rec ns name args c hwf hsep
+
+/-- the DISAGREEMENT `hsep` excludes: an external entity X with a bridge `g` only, a class X with a class-based operation `f`
+    (returns 2).  `X::f()` and `bridge X::f()` are 2 for `Spec` (`resolveNs`: no bridge `f`, so the class operation); the
+    interpreted source finds the external entity X first and fails at `getattr(X, 'f')` (Python: AttributeError). -/
+def CY : Ctx :=
+  { classes := [⟨"X", []⟩],
+    callables := [⟨.bridge "X", "g", [.ret (some (.int 1))]⟩, ⟨.classOp "X", "f", [.ret (some (.int 2))]⟩] }
+theorem implicit_call_disagreement_witness :
+    valOfR (evalStep CY (run CY 4) (.call (.implicit "X") "f" []) cfg1) = some (.int 2) ∧
+    errOfR (handlerE CY gen (srcDom CY) (run CY 4)
+      (invNode CY gen (srcDom CY) (run CY 4) [("namespace", "X"), ("action_name", "f")] none []) accept_ImplicitInvocationNode cfg1) =
+      some "unknown X::f" := by
+  decide +kernel
+theorem bridge_call_disagreement_witness :
+    valOfR (evalStep CY (run CY 4) (.call (.bridge "X") "f" []) cfg1) = some (.int 2) ∧
+    errOfR (handlerE CY gen (srcDom CY) (run CY 4)
+      (invNode CY gen (srcDom CY) (run CY 4) [("namespace", "X"), ("action_name", "f")] none []) accept_BridgeInvocationNode cfg1) =
+      some "unknown X::f" := by
+  decide +kernel
+
+/-- the hypotheses hold on non-trivial models: CX (external entity X WITH the bridge `f`, class X with the operation `f`) for
+    `X::f()`; CY for `X::g()` (the bridge) and for `X::h()` (found nowhere: both sides fail after the parameters); C1 for
+    `A::whoami()` (class only) -/
+example (rec : Oracle) (args : List (String × Expr)) (c : Cfg) :
+    noMsg (evalStep CX rec (.call (.implicit "X") "f" args) c) =
+      noMsg (handlerE CX gen (srcDom CX) rec (invNode CX gen (srcDom CX) rec [("namespace", "X"), ("action_name", "f")] none args)
+        accept_ImplicitInvocationNode c) :=
+  implicit_call_as_in_source_partial CX rec "X" "f" args c (by decide +kernel) (by decide +kernel)
+example (rec : Oracle) (args : List (String × Expr)) (c : Cfg) :
+    noMsg (evalStep CY rec (.call (.bridge "X") "h" args) c) =
+      noMsg (handlerE CY gen (srcDom CY) rec (invNode CY gen (srcDom CY) rec [("namespace", "X"), ("action_name", "h")] none args)
+        accept_BridgeInvocationNode c) :=
+  bridge_call_as_in_source_partial CY rec "X" "h" args c (by decide +kernel) (by decide +kernel)
+example (rec : Oracle) (args : List (String × Expr)) (c : Cfg) :
+    noMsg (evalStep C1 rec (.call (.implicit "A") "whoami" args) c) =
+      noMsg (handlerE C1 gen (srcDom C1) rec (invNode C1 gen (srcDom C1) rec [("namespace", "A"), ("action_name", "whoami")] none args)
+        accept_ImplicitInvocationNode c) :=
+  implicit_call_as_in_source_partial C1 rec "A" "whoami" args c (by decide +kernel) (by decide +kernel)
+example : valOfR (handlerE CY gen (srcDom CY) (run CY 4)
+      (invNode CY gen (srcDom CY) (run CY 4) [("namespace", "X"), ("action_name", "g")] none []) accept_BridgeInvocationNode cfg1) =
+      some (.int 1) ∧
+    valOfR (handlerE C1 gen (srcDom C1) (run C1 8)
+      (invNode C1 gen (srcDom C1) (run C1 8) [("namespace", "A"), ("action_name", "whoami")] none []) accept_ImplicitInvocationNode cfg1) =
+      some (.int 1) ∧
+    -- `A::bump(d: 5)`: an instance-based operation fetched from the class and called without an instance
+    errOfR (handlerE C1 gen (srcDom C1) (run C1 8)
+      (invNode C1 gen (srcDom C1) (run C1 8) [("namespace", "A"), ("action_name", "bump")] none [("d", .int 5)])
+      accept_ImplicitInvocationNode cfg1) = some "arguments of the call" ∧
+    -- `K::x()`: K is a constant
+    errOfR (handlerE C1 gen (srcDom C1) (run C1 8)
+      (invNode C1 gen (srcDom C1) (run C1 8) [("namespace", "K"), ("action_name", "x")] none []) accept_ImplicitInvocationNode cfg1) =
+      some "getattr" := by
+  decide +kernel
+
+/-- `NS::name` (accept_EnumOrNamedConstantNode) for EVERY model: the enumeration NS — the enumerator's position in R56 order;
+    no enumeration NS — the source falls back to the untyped dictionary and the class NS, which have no attribute `name`, and
+    raises; `Spec` reports the unknown enumeration.  The hypotheses keep NS::name from denoting a bridge / an operation (Python
+    would deliver the function object as a value: outside the value domain).  The error ending IS the content of the not-found
+    side; up to the error text. -/
+theorem enumerator_total_as_in_source (C : Ctx) (rec : Oracle) (ns name : String) (c : Cfg)
+    (hnb : findCallable C (fun f => f.kind = .bridge ns ∧ f.name = name) = none)
+    (hnc : findCallable C (fun f => f.kind = .classOp ns ∧ f.name = name) = none)
+    (hni : findCallable C (fun f => f.kind = .instOp ns ∧ f.name = name) = none) :
+    noMsg (evalStep C rec (.enumOrConst ns name) c) =
+      noMsg (handlerE C gen (srcDom C) rec (enumNode ns name) accept_EnumOrNamedConstantNode c) :=
+  enumerator_total C rec ns name c hnb hnc hni
+
+example (rec : Oracle) (c : Cfg) :
+    noMsg (evalStep C1 rec (.enumOrConst "Color" "green") c) =
+      noMsg (handlerE C1 gen (srcDom C1) rec (enumNode "Color" "green") accept_EnumOrNamedConstantNode c) ∧
+    noMsg (evalStep C1 rec (.enumOrConst "K" "green") c) =
+      noMsg (handlerE C1 gen (srcDom C1) rec (enumNode "K" "green") accept_EnumOrNamedConstantNode c) :=
+  ⟨enumerator_total_as_in_source C1 rec "Color" "green" c (by decide +kernel) (by decide +kernel) (by decide +kernel),
+   enumerator_total_as_in_source C1 rec "K" "green" c (by decide +kernel) (by decide +kernel) (by decide +kernel)⟩
+example : valOfR (handlerE C1 gen (srcDom C1) (run C1 0) (enumNode "Color" "green") accept_EnumOrNamedConstantNode cfg1) =
+      some (.int 1) ∧
+    errOfR (handlerE C1 gen (srcDom C1) (run C1 0) (enumNode "K" "green") accept_EnumOrNamedConstantNode cfg1) = some "getattr" ∧
+    errOfR (evalStep C1 (run C1 0) (.enumOrConst "K" "green") cfg1) = some "unknown enumeration K" ∧
+    errOfR (handlerE C1 gen (srcDom C1) (run C1 0) (enumNode "Nope" "green") accept_EnumOrNamedConstantNode cfg1) =
+      some "Unknown symbol Nope" := by
+  decide +kernel
+
+/-- `transform KL::op(args)` (accept_ClassInvocationNode) where the model has no class KL and nothing else named KL: the source
+    raises 'Unknown symbol' BEFORE the parameters are evaluated, and so does `Spec` (the error ending, and that no parameter is
+    evaluated first, is the content).  With `namespace_calls_as_in_source` (found) and `keyword_forms_fall_back_as_in_source`
+    (class without the operation) the handler is covered found and not found.  `hu` is needed: `transform X::f()` on an
+    external entity X with a bridge `f` and no class X RUNS the bridge in the source (untyped fall-back) and is an error for
+    `Spec`. -/
+theorem class_call_no_class_as_in_source (C : Ctx) (rec : Oracle) (ns name : String) (args : List (String × Expr)) (c : Cfg)
+    (hcls : (findClass C ns).isSome = false) (hu : untypedOf C ns = none)
+    (hwf : (findClass C ns).isSome = false → findCallable C (fun f => f.kind = .classOp ns ∧ f.name = name) = none) :
+    noMsg (evalStep C rec (.call (.classOp ns) name args) c) =
+      noMsg (handlerE C gen (srcDom C) rec (invNode C gen (srcDom C) rec [("key_letter", ns), ("action_name", name)] none args)
+        accept_ClassInvocationNode c) :=
+  class_call_no_class C rec ns name args c hcls hu hwf
+
+/-- the hypotheses on C1 / "B"; and the case `hu` excludes, on CY without its class -/
+example (rec : Oracle) (args : List (String × Expr)) (c : Cfg) :
+    noMsg (evalStep C1 rec (.call (.classOp "B") "op" args) c) =
+      noMsg (handlerE C1 gen (srcDom C1) rec (invNode C1 gen (srcDom C1) rec [("key_letter", "B"), ("action_name", "op")] none args)
+        accept_ClassInvocationNode c) :=
+  class_call_no_class_as_in_source C1 rec "B" "op" args c (by decide +kernel) (by decide +kernel) (by decide +kernel)
+def CZ : Ctx := { callables := [⟨.bridge "X", "g", [.ret (some (.int 1))]⟩] }
+theorem transform_on_external_entity_witness :
+    errOfR (evalStep CZ (run CZ 4) (.call (.classOp "X") "g" []) cfg1) = some "unknown X::g" ∧
+    valOfR (handlerE CZ gen (srcDom CZ) (run CZ 4)
+      (invNode CZ gen (srcDom CZ) (run CZ 4) [("key_letter", "X"), ("action_name", "g")] none []) accept_ClassInvocationNode cfg1) =
+      some (.int 1) := by
+  decide +kernel
+
+/-- Domain.add_symbol's UNTYPED dictionary over the generated DomainShape, for EVERY list of registrations in EVERY order:
+    `find_symbol(name)` without a kind — and with kinds under none of which the name is registered (the kind-qualified probes
+    and the class probe miss) — delivers the symbol registered LAST under the name, whatever its kind.  With
+    `kinds_do_not_hide_as_in_source` (the kind-qualified dictionary) both dictionaries of add_symbol / find_symbol are tied. -/
+theorem untyped_dictionary_as_in_source (regs : List Reg) (name : String) (ks : List String)
+    (hks : ∀ k ∈ ks, regs.reverse.find? (fun r => decide (r.kind = some k ∧ r.name = name)) = none) :
+    iFind domain (regAll domain regs) name ks = (regs.reverse.find? (fun r => decide (r.name = name))).map Reg.sym :=
+  find_symbol_untyped regs name ks hks
+
+/-- `hks` on a non-trivial value: X registered as constant, external entity, enumeration, function (in that order); asked for as
+    a 'class' or 'bridge' it is the function (registered last); a shape WITHOUT the untyped registration finds nothing -/
+example : symTag (iFind domain (regAll domain regsX) "X" ["class", "bridge"]) = "function" ∧
+    (iFind domain (regAll domain regsX) "X" ["class", "bridge"]).isSome =
+      ((regsX.reverse.find? (fun r => decide (r.name = "X"))).map Reg.sym).isSome ∧
+    symTag (iFind { domain with addUntyped := false } (regAll { domain with addUntyped := false } regsX) "X" ["class"]) =
+      "nothing" := by
+  decide +kernel
+example : symTag (iFind domain (regAll domain regsX) "X" ["class", "bridge"]) =
+    symTag ((regsX.reverse.find? (fun r => decide (r.name = "X"))).map Reg.sym) := by
+  rw [untyped_dictionary_as_in_source regsX "X" ["class", "bridge"] (by decide +kernel)]
 
 end PyxProps.C15
